@@ -163,7 +163,7 @@ pub fn attribution_for(j: &Job) -> Attribution {
     }
 }
 
-pub const FAMILY_RULE: &str = "family E: every typed expression tree with exactly k operator nodes (8 arithmetic/bit ops, shifts, 6 comparisons, && ||, - !, casts among 6 types, if, match, let-block, call) over leaves {x, y, boundary literals}, for (x,y) in u8^2 and i8^2; family S: every sequence of <=n statement templates (27 simple: plain/op-assignment through 0-2 accessors with constant and input-dependent indices, aggregate copies, shadowing, calls mutating their parameter, side-effecting operand blocks; compound: if / if-else / match / for / for-range / block / for-join / nested if-in-for with bodies from a core set) over 7 variables, returning all of them; family X: an effect block (assigns to a mutable variable of main and/or fails, then yields a value) placed in every expression position - if condition, match scrutinee, either operand of every operator, call argument, aggregate literal element, index, cast, let initialiser, assignment right-hand side, loop iterable - including positions whose value does not depend on it (0*H, H&0, (H,7).1, if true {..}, ...) and pairs of sibling blocks (evaluation order); family P: every sequence of <=n (failing-operation site x conditional wrapper) pairs incl. verbatim repeats and constant-foldable sites; every program is compiled by the real compiler in each configuration and evaluated by the real evaluator on every input of its input set; oracle = reference interpreter (value, panic reason, panic location); non-trivial = program with >=2 distinct observed outputs";
+pub const FAMILY_RULE: &str = "family E: every typed expression tree with exactly k operator nodes (8 arithmetic/bit ops, shifts, 6 comparisons, && ||, - !, casts among 6 types, if, match, let-block, call) over leaves {x, y, boundary literals}, for (x,y) in u8^2 and i8^2; family S: every sequence of <=n statement templates (27 simple: plain/op-assignment through 0-2 accessors with constant and input-dependent indices, aggregate copies, shadowing, calls mutating their parameter, side-effecting operand blocks; compound: if / if-else / match / for / for-range / block / for-join / nested if-in-for with bodies from a core set) over 7 variables, returning all of them; family X: an effect block (assigns to a mutable variable of main and/or fails, then yields a value) placed in every expression position - if condition, match scrutinee, either operand of every operator, call argument, aggregate literal element, index, cast, let initialiser, assignment right-hand side, loop iterable - including positions whose value does not depend on it (0*H, H&0, (H,7).1, if true {..}, ...) and pairs of sibling blocks (evaluation order); family I (value part): every template by which an integer literal meets its type, each literal suffixed or not in every subset, must - when accepted - compute the outputs of the fully suffixed program; family P: every sequence of <=n (failing-operation site x conditional wrapper) pairs incl. verbatim repeats and constant-foldable sites; every program is compiled by the real compiler in each configuration and evaluated by the real evaluator on every input of its input set; oracle = reference interpreter (value, panic reason, panic location); non-trivial = program with >=2 distinct observed outputs";
 
 pub fn coverage_json(fr: &FamilyRun, rule: &str, budget: &Budget) -> serde_json::Value {
     json!({
@@ -192,13 +192,25 @@ pub fn run_shared(property: &'static str, tier: Tier, families: &[&str], extra_a
     let budget = Budget::new(tier.pick(240.0, 3300.0));
     let (jobs, plan) = family_jobs(tier, families);
     let fr = run_jobs(jobs, attribution_for, &budget, plan);
+    let mut cov_extra = None;
+    if property == "C01" {
+        // programs with unsuffixed literals: same outputs as their fully suffixed counterpart
+        let (ijobs, _) = crate::props::c05::family_i_jobs();
+        let (pairs, evals) = crate::props::c05::suffix_differential(&ijobs, &budget, &fr.coll);
+        cov_extra = Some((pairs, evals));
+    }
     let mut assumptions = vec![
         "reference interpreter interp.rs is the source semantics (Rust-like, by-value, checked arithmetic)".to_string(),
         "small-scope: programs beyond the stated node / statement / site bounds are not covered".to_string(),
         "source locations: token positions are the real scanner's, node shapes follow the parser's location rules (DESIGN.md Appendix A)".to_string(),
     ];
     assumptions.extend(extra_assumptions);
-    let report = Report { property: property.into(), tier, level: "exploration", coverage: coverage_json(&fr, FAMILY_RULE, &budget), assumptions, start };
+    let mut coverage = coverage_json(&fr, FAMILY_RULE, &budget);
+    if let (Some((pairs, evals)), serde_json::Value::Object(m)) = (cov_extra, &mut coverage) {
+        m.insert("family_I_suffix_variant_pairs_compared_with_fully_suffixed_program".into(), json!(pairs));
+        m.insert("family_I_suffix_variant_evaluations".into(), json!(evals));
+    }
+    let report = Report { property: property.into(), tier, level: "exploration", coverage, assumptions, start };
     finish(report, &fr.coll)
 }
 
